@@ -114,4 +114,54 @@ def check_C05(args):
         shutil.rmtree(work, ignore_errors=True)
 
 
-CHECKS = {"C05": check_C05}
+def check_C09(args):
+    t0 = time.time()
+    pid = "C09"
+    V = Verdict(pid)
+    quick = common.tier() == "quick"
+    bins = common.build(("zvpure",))
+    work = common.scratch(pid)
+    try:
+        if args.replay:
+            rp = json.load(open(args.replay))
+            f = os.path.join(work, "replay.ndjson")
+            open(f, "w").write(json.dumps(rp["case"]) + "\n")
+            files, counts = [f], {}
+        else:
+            out = os.path.join(work, "sort.ndjson")
+            # Sample thins the 3-row sequences; all 1- and 2-row sequences are always included
+            consts = dict(MaxRows=3, MaxKeys=2 if quick else 3, Sample=1501 + 2 * (common.seed() % 50) if quick else 17)
+            c, wall = gen_cases("GenSort", consts, out, os.path.join(work, "gen"), timeout=3000)
+            print("[%s] GenSort %s -> %s in %.1fs" % (pid, consts, c, wall), flush=True)
+            files, counts = [out], {"GenSort": c}
+        total, fails, lines = run_pure(bins["zvpure"], files, work)
+        print("[%s] zvpure: %s" % (pid, total), flush=True)
+        seen = {}
+        for f in fails:
+            case = f["case"]
+            key = json.dumps(case["keys"])
+            if key in seen:
+                continue
+            seen[key] = 1
+            if len(seen) <= 10:
+                rp = common.save_replay(pid, "case%d" % len(seen), {"case": case, "fail": f["fail"]})
+                V.violation(rp, "ORDER BY %s LIMIT %d OFFSET %d over %d rows: %s" % (
+                    ", ".join(k["k"] + (" DESC" if k["desc"] else "") for k in case["keys"]), case["n"], case["m"], len(case["rows"]), f["fail"]))
+        cov = {"evaluations": total["Evaluations"], "distinct_nontrivial": sum(1 for l in set(lines) if '"keys":[]' not in l),
+               "rule": "cases enumerated by TLC from spec/GenSort.tla: row sequences (<= 3 rows over ts x dim(missing|x|y) x f x g, "
+                       "arrival order included), key lists over {_time, d, f, g} x {ASC, DESC} without repetition, (limit, offset) "
+                       "pairs incl. values beyond the row count; the expected result is the sequence of key vectors of the ordered "
+                       "result sliced by OFFSET/LIMIT; non-trivial = at least one ORDER BY key",
+               "samples": [json.loads(l) for l in lines[:1] + lines[len(lines) // 2:len(lines) // 2 + 1] + lines[-1:]],
+               "cases": total["Cases"], "generated": counts, "exhaustive": False}
+        rc = V.finish()
+        common.write_evidence(pid, "exploration", cov,
+                              ["rows are fed to core.Sort / core.Offset / core.Limit through a FlatRowSource (the operators the planner "
+                               "composes for ORDER BY / LIMIT / OFFSET); the SQL parsing of the clause is not part of this check",
+                               "a missing dimension sorts first (core.compare)"], time.time() - t0, len(V.violations))
+        return rc
+    finally:
+        shutil.rmtree(work, ignore_errors=True)
+
+
+CHECKS = {"C05": check_C05, "C09": check_C09}
